@@ -543,8 +543,18 @@ def gen_trace(df, rnd, tid):
     f = {"mesh": m, "dims": dims, "units": units, "nv": nv, "vals": [[rnd.randrange(-99, 100) for _ in range(nv)] for _ in range(N)],
          "valid": [True] * N if rnd.random() < 0.3 else [rnd.random() < 0.75 for _ in range(N)], "labels": labels,
          "map": list(mp) if mp else [0] * (nv if nv > 1 else 0), "hasmap": mp is not None, "scale": {"qm": list(qm), "k": k}}
-    ak = rnd.choice(["none", "same", "coarse", "fine"])
-    an = {"same": n, "none": n, "coarse": [v // 2 if v % 2 == 0 else v for v in n], "fine": [3 * v for v in n]}[ak]
+    ak = rnd.choice(["none", "same", "coarse", "fine", "skew"])
+    an = {"same": n, "none": n, "coarse": [v // 2 if v % 2 == 0 else v for v in n], "fine": [3 * v for v in n], "skew": [3 * v for v in n]}[ak]
+    if ak == "skew":
+        # as many cells as the field's mesh, differently arranged (three times as many along one axis, a third along the other):
+        # a filter that "fits" by its size alone still has to be resampled (seeded change C20-32); no field centre on an auxiliary face
+        d3 = [d for d in range(2) if n[d] % 3 == 0]
+        if d3:
+            d = d3[rnd.randrange(len(d3))]
+            an = [3 * n[0], 3 * n[1]]
+            an[d] = n[d] // 3
+            an[1 - d] = 3 * n[1 - d]
+        ak = "fine"
     aux = {"kind": ak, "n": an, "vals": [] if ak == "none" else [[0 if rnd.random() < 0.3 else rnd.choice([-1, 1]) * rnd.randrange(1, 50)] for _ in range(an[0] * an[1])]}
     vs = rnd.choice(VSCALES)
     try:
